@@ -24,7 +24,7 @@ BOUND = {
     "quick": "CGLS: 3 shapes (6x4,5x5,3x5) x dense/sparse x shift{0,.5} x 4 starts x {matrix,function}; PCGLS: same x "
              "P{I,diag,tridiag SPD,lower bidiagonal} x {explicit inverse, solve} ; FISTA/ISTA: 3 shapes x 7 regularisers (L1 x3, nonneg, box x3) "
              "x step{.5/L,.99/L} (+sparse and second start for 6x4), n<=5 so all 3^n active sets are enumerated; "
-             "LM: 3 problems x 4 (sparse flag, Jacobian type) x 2 starts; wrappers: L_BFGS_B 8 configs, minimize 10 methods "
+             "LM: 3 problems x 4 (sparse flag, Jacobian type) x 2 starts x gradtol {1e-9, 1e-15 (below round-off)} + matrix form; wrappers: L_BFGS_B 8 configs, minimize 10 methods "
              "x grad/no grad x ndarray/CUQIarray, maximize, LS 3 methods x 2 losses x jac/None; "
              "projections/prox: d=1 (33-pt lattice), d=2 (13^2), d=3 (7^3): all inputs x all competitors",
     "thorough": "as quick with 4 shapes (adds 8x6), every start for every solver, 6 boxes, 4 L1 strengths, finer lattices "
